@@ -25,6 +25,10 @@ CHUNK = 4
 PLUGINS = ["bearer", "key-header", "key-authz", "key-query", "key-cookie", "hdr-extra", "hdr-case", "oauth", "oauth-refresh"]
 
 
+class _Mode(str, __import__("enum").Enum):
+    FAST = "fast"
+
+
 def cases(tier, seed):
     seqs = [[]]
     for k in range(1, (3 if tier == "quick" else 4) + 1):
@@ -128,12 +132,14 @@ def run_case(case):
     try:
         for seq in case["seqs"]:
             for defaults in ({}, {"X-A": "d"}, {"x-a": "d"}):
-                for req_headers in ({}, {"X-A": "r"}):
+                # per-request header values as generated methods really pass them: plain str, a str-mixin Enum member (what the
+                # generator emits for enum-typed header parameters; its wire form is the member's value) and an int
+                for req_headers, req_expect in (({}, {}), ({"X-A": "r"}, {"X-A": "r"}), ({"X-A": _Mode.FAST, "X-N": 5}, {"X-A": "fast", "X-N": "5"})):
                     for caller in (False, True, "empty-dict", "empty-list", "zero"):
                         for bt in (None, "bt"):
                             wraps = ["composite"] if len(seq) != 1 else ["direct", "composite"]
                             for wrap in wraps:
-                                label = f"plugins={seq}|{wrap}|defaults={defaults}|request={req_headers}|caller={caller}|bearer_token={bt}"
+                                label = f"plugins={seq}|{wrap}|defaults={defaults}|request={req_expect if req_headers == req_expect else 'enum+int:' + str(req_expect)}|caller={caller}|bearer_token={bt}"
                                 if not seq:
                                     auth = None
                                 elif wrap == "direct":
@@ -141,11 +147,11 @@ def run_case(case):
                                 else:
                                     auth = abase.CompositeAuth(*[make_plugin(p, aplug) for p in seq])
                                 tr = ht.HttpxTransport("http://h.test", auth=auth, bearer_token=bt, default_headers=dict(defaults) or None)
-                                plans = [("r1", dict(req_headers)), ("r2", {"X-B": "r2"}), ("r3", {})]
-                                for k, (rname, rh) in enumerate(plans):
+                                plans = [("r1", dict(req_headers), dict(req_expect)), ("r2", {"X-B": "r2"}, {"X-B": "r2"}), ("r3", {}, {})]
+                                for k, (rname, rh_sent, rh) in enumerate(plans):
                                     kwargs = {}
-                                    if rh:
-                                        kwargs["headers"] = dict(rh)
+                                    if rh_sent:
+                                        kwargs["headers"] = dict(rh_sent)
                                     CALLER_JSON = {True: {"a": 1}, "empty-dict": {}, "empty-list": [], "zero": 0}
                                     if caller:
                                         kwargs["params"] = {"q": "1"}
@@ -191,7 +197,7 @@ def run_case(case):
                                         elif len(variants) == 1 and vals != [val]:
                                             add("header", "header sent with more than the expected value", f"{name}: {vals} expected [{val!r}]")
                                     # nothing from an earlier request may linger
-                                    for hname in ("x-a", "x-b"):
+                                    for hname in ("x-a", "x-b", "x-n"):
                                         if hname in sent and not any(hk.lower() == hname for hk in eh):
                                             add("header", "a header nobody supplied for this request is on the wire", f"{hname}: {sent[hname]}")
                                     wire.add("auth=" + ",".join(sent.get("authorization", ["-"])) + "|x-a=" + ",".join(sent.get("x-a", ["-"]))
